@@ -118,10 +118,11 @@ inductive Custom
   | objId      -- object.ObjectIdentifierProperty
   | propList   -- local.object.CurrentPropertyList
   | wrName     -- local.object.WriteableObjectName
-  | computed (val : Item)
-               -- local.device.CurrentLocalDate / CurrentLocalTime / CurrentProtocolServicesSupported:
-               -- `val` is computed on each read (clock, service table: supplied), never an array,
-               -- never writable; the stored `_values` entry only counts for propertyList
+  | computed (val : PVal)
+               -- local.device.CurrentLocalDate / CurrentLocalTime / CurrentProtocolServicesSupported,
+               -- service.cov.ActiveCOVSubscriptions (a list): `val` is computed on each read (clock,
+               -- service table, subscription list: supplied), never an array, never writable; the
+               -- stored `_values` entry only counts for propertyList
 deriving DecidableEq, Repr, Inhabited
 
 /-- property descriptor (`Property.__init__` arguments + serving class) -/
@@ -309,7 +310,7 @@ def propRead (o : Object) (s : Slot) (idx : Option Nat) : Except Refusal RVal :=
   | .computed val =>
       match idx with
       | some _ => .error .notAnArray
-      | none => .ok (.whole (.one val))
+      | none => .ok (.whole val)
   | _ => stdRead s idx
 
 /-- `Object.ReadProperty(propid, arrayIndex)`; `PropertyError` → unknownProperty -/
